@@ -53,9 +53,11 @@ def pmap(fn, items, workers=None, timeout=None, chunk=1):
             for f, it in list(futs.items()):
                 yield it, "timeout", f"no result within {timeout}s"
     finally:
+        procs = list((getattr(ex, "_processes", None) or {}).values())
         ex.shutdown(wait=False, cancel_futures=True)
-        for p in list(getattr(ex, "_processes", {}).values() or []):
+        for p in procs:
             try:
-                p.kill()
+                if p.is_alive() and futs:
+                    p.kill()
             except Exception:
                 pass
